@@ -298,8 +298,9 @@ class KaniRun:
             return [Obligation(base, key=h.role + "/*", verdict=INCONCLUSIVE,
                                reason="unwinding assertion failed (bound %s too small): %s" % (h.unwind, unwind_fail[0]["loc"]))]
         if not vac_ok:
+            fl = ["%s @ %s" % (c["desc"][:80], c["loc"][-60:]) for c in checks if c["status"] == "FAILURE"][:4]
             return [Obligation(base, key=h.role + "/*", verdict=BROKEN,
-                               reason="vacuity witness not reachable: %s" % cov)]
+                               reason="vacuity witness not reachable: %s; failing checks: %s" % (cov, fl))]
         failed = [c for c in checks if c["status"] == "FAILURE"]
         undet = [c for c in checks if c["status"] == "UNDETERMINED"]
         seen = set()
